@@ -102,7 +102,8 @@ PROPS = {
     },
     "C12": {
         "proof_files": ["Proofs/DiscoveryFacts.v", "Proofs/ConfigFacts.v"],
-        "runs": [{"engine": "flow", "args": [], "n_quick": 250, "n_thorough": 20000, "netns": True, "mountns": True}],
+        "runs": [{"engine": "flow", "args": [], "n_quick": 250, "n_thorough": 20000, "netns": True, "mountns": True},
+                 {"engine": "refresh", "args": [], "n_quick": 300, "n_thorough": 30000, "netns": True, "mountns": True}],
         "trivial_tags": [r"^up$"],
         "rule": "random hosts files (v4/v6/zone/invalid addresses, several names per line, mixed case, comments, CR, missing final "
                 "newline) bind-mounted over /etc/hosts in a private mount namespace and read by the real discovery.Hosts; 8 queries per "
